@@ -183,6 +183,14 @@ add(Gram("h2", Level([
     Cmds([Cmd(["add"], _c1_add)]),
 ]), short_flags="vn", note="subcommand with its own version, fallback_to_usage"))
 
+add(Gram("gd", Level([
+    Named("switch", "a", ["alpha"]),
+    Named("arg", "b", ["beta"], arity="opt"),
+]), short_flags="a", short_args="b", note="styled group_help document: a non-ASCII fragment ending its line + an emphasised fragment (Doc::first_line runs on it in autocomplete builds)"))
+
+add(Gram("eg", None, short_flags="f", short_args="n", env_names=["VERIF_G"], names=("nf", ["num", "force"], []),
+         note="env-backed switch under a guard next to an argument (the guard's message quotes the item State::current points at)"))
+
 _fu = Gram("fu", Level([
     Named("arg", "a", ["alpha"], arity="req"),
     Named("arg", "b", ["beta"], arity="req"),
@@ -219,6 +227,8 @@ _o3 = Group(_ab, "opt")
 _o3.default = (0, 0)
 add(Gram("o3", Level([_o3, Named("switch", "s", ["sw"])], make=lambda v: ((v[0].fields[0] if v[0].var == 1 else (0, 0)), v[1])),
          short_flags="s", short_args="ab", note="group of two required arguments under fallback_with"))
+add(Gram("a6", None, short_flags="as", short_args="bxy", names=("abxys", ["alpha", "beta", "ex", "why", "sw"], []), note="bare choice, the two-argument group declared first"))
+add(Gram("a7", None, short_flags="as", short_args="bxy", names=("abxys", ["alpha", "beta", "ex", "why", "sw"], []), note="repeated choice, the two-argument group declared first"))
 add(Gram("a4", None, short_flags="abcs", names=("abcs", ["alpha", "beta", "gamma", "sw"], []), note="repeated choice between three flags"))
 C01_GRAMMARS.append("g4")
 C01_GRAMMARS.append("c5")
